@@ -135,8 +135,18 @@ func run(e *core.Env) {
 		privacyAt = tp.Intn(n)
 		e.Probe("one_router_outside_the_routable_prefixes")
 	}
+	// In a quarter of the runs all routers but the first derive the same one-byte switch label
+	// from their addresses: two of them setting up links with a third at the same time then
+	// compete for one label.
+	sameLabel := tp.Chance(1, 4)
+	if sameLabel {
+		e.Probe("peers_deriving_the_same_switch_label")
+	}
 	for i := range S {
 		id := ident.Get(ident.Routable, perm[i])
+		if sameLabel && i > 0 {
+			id = ident.Get(ident.SameLabel, i-1+perm[0]%3)
+		}
 		if i == privacyAt {
 			id = ident.Get(ident.Privacy, perm[i]%4)
 		}
@@ -379,6 +389,16 @@ func run(e *core.Env) {
 				atts = append(atts, linkpair.Dial(cn, S[j], S[i]))
 				note("dial r%d>r%d (conn %d) at the same time", j, i, atts[len(atts)-1].Pair.ID)
 				e.Fault("cross_connect")
+			} else if n >= 3 && tp.Chance(1, 2) {
+				// a third router sets up a link with the same target while the first setup is
+				// still under way: two setups at one router that know nothing of each other
+				k := tp.Intn(n)
+				if k != i && k != j {
+					time.Sleep(time.Duration(tp.Intn(4)) * time.Millisecond)
+					atts = append(atts, linkpair.Dial(cn, S[k], S[j]))
+					note("dial r%d>r%d (conn %d) while r%d>r%d is under way", k, j, atts[len(atts)-1].Pair.ID, i, j)
+					e.Fault("concurrent_setups_at_one_router")
+				}
 			}
 		case 1: // deliver the oldest record of some connection direction
 			r := heads[tp.Intn(len(heads))]
